@@ -111,6 +111,12 @@ impl TomlConverter {
 
     fn write(&self, v: &Val, w: &mut dyn Write) -> ConvertResult {
         let toml_val = self.convert_value(v)?;
+        // A TOML document is a table. (`[[1]]` would even read back as the header
+        // of an array of tables.)
+        if !toml_val.is_table() {
+            let err = SimpleError::new("Only tuples can be written as a TOML document!");
+            return Err(Box::new(err));
+        }
         let toml_bytes = toml::ser::to_string_pretty(&toml_val)?;
         // The serializer emits text that is not TOML for values TOML can not
         // express (a top level value that is not a table, an array mixing tables
